@@ -203,7 +203,8 @@ static snap_t snap(obj_t o)
 {
     snap_t x = { (char *) o->s, o->len, o->size, 0 };
     size_t a = o->s ? vh_alloc_size(o->s) : 0;
-    size_t n = o->s ? (a ? (a < (size_t) o->size ? a : (size_t) o->size) : (size_t) o->len + 1) : 0;
+    size_t n = o->s ? (size_t) (o->len < 0 ? 0 : o->len + 1) : 0;     /* text and its terminator */
+    if (a && n > a) n = a;
     x.h = o->s ? vh_hash_bytes(o->s, n, 1) : 0;
     return x;
 }
